@@ -6,7 +6,9 @@ TB = "Trusted base: rustc nightly's MIR lowering, the rws-facts extractor, the C
 P = {
  "C01": ("other", "Sufficient modulo the predicate's body: every content-disclosing file read whose path derives from the request target is reachable from the connection roots only through call edges dominated by the pass edge of the path-containment predicate (both entry points); refusal carries an error status; the predicate compares path segments with '..' on both separators.",
          "interprocedural taint + cut-edge call-graph reachability + edge dominance on MIR", "§4 C01"),
- "C02": None, "C03": None,
+ "C02": ("other", "Four structural clauses only (body bytes and the lookup precedence depend on runtime file-system state and are not decided): both dispatchers pair each process call with the true edge of the same controller's matcher, in the same order, catch-all last; Content-Type / Content-Length / Content-Range derive from the emitted content range; detect_mime_type is pure, returns a constant per decision, defaults to application/octet-stream, has no shadowed suffix and agrees with a reviewed extension table for all 89 extensions; no directory listing API is reachable from a connection root.",
+         "edge dominance in dispatchers, sibling order agreement, constant-table extraction of the suffix chain vs a reviewed table, call-graph reachability", "§4 C02"), "C03": ("other", "Structural clauses only (offset arithmetic on runtime lengths is not decided): every assignment to a range bound must pass the three bound checks (end<=length, start<=length, start<=end) before the next iteration or the Ok return, their failing edges return Err; the only rejection reasons are an unparsable number or one of those checks; every error of the range parsers is 416; 206 is selected only with a Range header; each ContentRange stores the very Range value whose start/end were passed to the single partial read, with size from the file length; serialisers label from the emitted element.",
+         "must-pass-through inside the loop body, enumeration of rejection edges, constant extraction, same-origin dataflow", "§4 C03"),
  "C05": ("other", "Six structural clauses: response bytes go out through Write::write_all; headers built by the request parser come from the CR/LF stripper; status_code and reason_phrase are always taken from the same registered status entry; the body reaches the bytes only where the method is neither HEAD nor OPTIONS; Content-Length/Content-Type derive from the emitted content range; header lines are name, ': ', value, CRLF with framing headers built in exclusive branches. Wire bytes are not re-parsed.",
          "MIR call-site rules, constant/table extraction, forward pairing of field assignments, edge dominance", "§4 C05"),
  "C09": ("other", "Exhaustive over the method domain: each of the 20 matchers is abstractly executed for all 10 abstract method values (the method is only ever compared for equality with constants), and a matcher that can accept GET must be able to accept HEAD and OPTIONS under the same remaining conditions; 204 is selected only under method == OPTIONS; the serialiser drops the body for HEAD/OPTIONS and computes Content-Length from the content range, independently of the method.",
